@@ -527,6 +527,14 @@ def accessor_contract(c, res):
             if r is None or not r.startswith('ok'):
                 return ('call %d `%s` returned %s in a sequence of valid consecutive rounds (drop must start a new round)'
                         % (k, c.ops[k][:60], r), {'op_index': k})
+        for rnd, (di, seed, given) in enumerate(m['marks']):
+            d = parse_round(res[di]) if di < len(res) else None
+            if d is None:
+                return ('round %d: decode result missing' % rnd, {'op_index': di})
+            exp = {i: orig_bytes(seed, i, sb).hex() for i in range(K) if i not in set(given)}
+            if parse_map(d[0]) != exp or [int(x.split(':')[0]) for x in d[0]] != sorted(exp):
+                return ('round %d of %d consecutive rounds on one decoder (separated only by dropping the result): restored originals are not the withheld originals of that round'
+                        % (rnd + 1, m['n']), {'op_index': di, 'round': rnd})
         return None
     e = parse_round(res[m['enc_idx']]) if len(res) > m['enc_idx'] else None
     d = parse_round(res[m['dec_idx']]) if len(res) > m['dec_idx'] else None
@@ -565,6 +573,15 @@ def check_C17(v, tier, rng):
         if big:
             sb = rng.choice([4096, 65536])
             K, R = min(K, 6), min(R, 6)
+        wide = (not big) and rng.random() < 0.2      # many positions, tiny shards: the index bitmap is the large object
+
+        def wide_cfg():
+            while True:
+                K_ = int(2 ** rng.uniform(5, 11)); R_ = int(2 ** rng.uniform(5, 11))
+                if codec in codecs_for(K_, R_):
+                    return K_, R_, 2
+        if wide:
+            K, R, sb = wide_cfg()
         ops.append('E.new %s %s %d %d %d' % (codec, engine, K, R, sb))
         ops.append('D.new %s %s %d %d %d' % (codec, engine, K, R, sb))
         for r in range(rng.randint(2, 6)):
@@ -575,6 +592,8 @@ def check_C17(v, tier, rng):
             tt = rng.random()
             if tt < 0.5:
                 K2, R2, sb2 = small_cfg(rng, codec)
+                if wide:
+                    K2, R2, sb2 = wide_cfg()
                 if big:
                     sb2 = rng.choice([64, 4096, 65536])
                     K2, R2 = min(K2, 6), min(R2, 6)
@@ -584,14 +603,14 @@ def check_C17(v, tier, rng):
                 codec = rng.choice([c for c in ('def', 'high', 'low') if c in codecs_for(K, R)])
                 ops += ['E.parts', 'E.neww %s %s %d %d %d' % (codec, engine, K, R, sb),
                         'D.parts', 'D.neww %s %s %d %d %d' % (codec, engine, K, R, sb)]
-        cases.append(Case('a%d' % t, ops, dict(big=big, codec=codec)))
+        cases.append(Case('a%d' % t, ops, dict(big=big, wide=wide, codec=codec)))
     impl = run_cases('impl', cases, 'C17', alloc=True)
     model = run_cases('model', cases, 'C17', alloc=True)
     for c in cases:
         ri = impl.get(c.id) or []
         rm = model.get(c.id) or []
         note_case(v, c, c.line()[:3000])
-        v.count('big' if c.meta['big'] else 'small')
+        v.count('big' if c.meta['big'] else ('wide' if c.meta.get('wide') else 'small'))
         for k, op in enumerate(c.ops):
             a = ri[k] if k < len(ri) else ''
             b = rm[k] if k < len(rm) else ''
